@@ -528,6 +528,22 @@ func c07Piggyback(w *World, r *Report) {
 		nst := 0
 		bad := ""
 		var inOwner ssa.Value
+		// the exchange may have been moved into a helper method of the same endpoint
+		entry := fn
+		for _, g := range staticCone(entry, 2) {
+			has := false
+			allInstrs(g, func(in ssa.Instruction) {
+				if st, ok := in.(*ssa.Store); ok {
+					if fa, ok := st.Addr.(*ssa.FieldAddr); ok && fieldVarOf(fa) == ackF {
+						has = true
+					}
+				}
+			})
+			if has && recvNamed(fnObj(g)) == recvNamed(fnObj(entry)) {
+				fn = g
+				break
+			}
+		}
 		allInstrs(fn, func(in ssa.Instruction) {
 			st, ok := in.(*ssa.Store)
 			if !ok {
